@@ -89,5 +89,4 @@ def run(tier):
 
 
 def replay(path):
-    print("replay: the replay file holds the specification XML, the class and the input; re-run `./bin/check C15 quick`")
-    return 0
+    return gen_replay(path)
